@@ -96,6 +96,8 @@ def make_alg(cfg: dict):
         kw['wrapper'] = _identity_wrapper
     elif cfg.get('wrapper') == 'wraps':
         kw['wrapper'] = _wraps_wrapper
+    elif str(cfg.get('wrapper', '')).startswith('flaky'):
+        kw['wrapper'] = FlakyWrapper(int(str(cfg['wrapper'])[5:] or 1))
     if cfg.get('symbolcls') == 'sympy':
         import sympy
         kw['codegen_symbolcls'] = sympy.Symbol
@@ -106,6 +108,22 @@ def make_alg(cfg: dict):
     if cfg.get('signature') is not None:
         return Algebra(signature=list(cfg['signature']), basis=list(cfg.get('basis') or []), **kw)
     return Algebra(cfg.get('p', 0), cfg.get('q', 0), cfg.get('r', 0), basis=list(cfg.get('basis') or []), **kw)
+
+
+class WrapperFailure(Exception):
+    pass
+
+
+class FlakyWrapper:
+    """semantics-preserving wrapper whose n-th application fails once (a JIT that errors, then works)."""
+    def __init__(self, fail_at=1):
+        self.n, self.fail_at = 0, fail_at
+
+    def __call__(self, f):
+        self.n += 1
+        if self.n == self.fail_at:
+            raise WrapperFailure(f'wrapper failed on its application number {self.n}')
+        return f
 
 
 def _identity_wrapper(f):
@@ -229,3 +247,28 @@ def all_keys(alg_or_d):
 
 def grade_keys(alg, grades):
     return tuple(alg.indices_for_grades[tuple(sorted(grades))])
+
+
+def twice_on_wrapper(cfg, body):
+    """
+    Run ``body(alg)`` (which returns claims) on the algebra of ``cfg``.  With a ``wrapper`` the numeric
+    path resolves generated functions BY NAME in Algebra.numspace at call time, so a second pass is
+    made on the same (fresh) algebra after every function of the first pass has been generated: a
+    function overwritten under a shared name by a later one then shows up in the second pass.
+    """
+    from .core import Eq, Fail
+    if not cfg.get('wrapper'):
+        return body(get_alg(cfg))
+    alg = make_alg(cfg)
+    claims = list(body(alg))
+    for c in body(alg):
+        if isinstance(c, (Eq, Fail)):
+            c.label = 'recall:' + c.label
+            c.fkey = 'recall|' + (c.fkey or _strip(c.label))
+        claims.append(c)
+    return claims
+
+
+def _strip(label):
+    import re
+    return re.sub(r'\[[^\]]*\]', '', label)
